@@ -978,14 +978,14 @@ pub fn property() -> Property {
             "SchnorrSighashType::Reserved is a placeholder outside the domain",
         ],
         subs: vec![
-            Sub { name: "tx_family", kind: Kind::Tape { max_len: 5000, quick: 24_000, thorough: 600_000, f: tx_family } },
-            Sub { name: "block_family", kind: Kind::Tape { max_len: 5000, quick: 20_000, thorough: 500_000, f: block_family } },
-            Sub { name: "confidential", kind: Kind::Tape { max_len: 600, quick: 30_000, thorough: 750_000, f: confidential } },
-            Sub { name: "hashes_and_small", kind: Kind::Tape { max_len: 2500, quick: 12_000, thorough: 300_000, f: hashes_and_small } },
-            Sub { name: "addresses_scripts", kind: Kind::Tape { max_len: 600, quick: 40_000, thorough: 1_000_000, f: addresses_scripts } },
-            Sub { name: "pset_parts", kind: Kind::Tape { max_len: 4000, quick: 24_000, thorough: 600_000, f: pset_parts } },
-            Sub { name: "pset_full", kind: Kind::Tape { max_len: 6000, quick: 8_000, thorough: 200_000, f: pset_full } },
-            Sub { name: "display_fromstr", kind: Kind::Tape { max_len: 1500, quick: 30_000, thorough: 750_000, f: display_fromstr } },
+            Sub { name: "tx_family", kind: Kind::Tape { max_len: 5000, quick: 60_000, thorough: 1_200_000, f: tx_family } },
+            Sub { name: "block_family", kind: Kind::Tape { max_len: 5000, quick: 50_000, thorough: 1_000_000, f: block_family } },
+            Sub { name: "confidential", kind: Kind::Tape { max_len: 600, quick: 75_000, thorough: 1_500_000, f: confidential } },
+            Sub { name: "hashes_and_small", kind: Kind::Tape { max_len: 2500, quick: 30_000, thorough: 600_000, f: hashes_and_small } },
+            Sub { name: "addresses_scripts", kind: Kind::Tape { max_len: 600, quick: 100_000, thorough: 2_000_000, f: addresses_scripts } },
+            Sub { name: "pset_parts", kind: Kind::Tape { max_len: 4000, quick: 60_000, thorough: 1_200_000, f: pset_parts } },
+            Sub { name: "pset_full", kind: Kind::Tape { max_len: 6000, quick: 20_000, thorough: 400_000, f: pset_full } },
+            Sub { name: "display_fromstr", kind: Kind::Tape { max_len: 1500, quick: 75_000, thorough: 1_500_000, f: display_fromstr } },
         ],
         known: vec![Known {
             key: KF_PSET_SERDE,
